@@ -115,6 +115,16 @@ func (e *specEnv) lookup(name string) (SVal, bool) {
 					cands = append(cands, a)
 				}
 			}
+			if len(cands) == 0 {
+				// the local may have been renamed since the contract was written
+				if nn := e.r.eng.renamedLocal(fr.fn, want); nn != "" {
+					for a := range e.state().cells {
+						if a.Comment == nn && a.Parent() == fr.fn {
+							cands = append(cands, a)
+						}
+					}
+				}
+			}
 			if len(cands) > 0 {
 				// deterministic: order by position
 				for i := range cands {
@@ -485,6 +495,14 @@ func (e *specEnv) call(x *SExpr) SVal {
 	name := x.Val
 	arg := func(i int) SVal { return e.tr(x.Args[i]) }
 	switch name {
+	case "ghost":
+		// ghost state variable (declared ";@ ghost name Sort" in the prelude); old(ghost(x)) reads the pre-state
+		g := x.Args[0].Val
+		so, ok := e.r.eng.Prelude.Ghosts[g]
+		if !ok || len(x.Args) != 1 {
+			e.fail("unknown ghost variable %q", g)
+		}
+		return SVal{Term: fmt.Sprintf("(select %s 0)", e.r.heapGet(e.state(), "GHOST_"+g)), Sort: so}
 	case "len":
 		a := arg(0)
 		if a.Sort == "String" {
